@@ -16,6 +16,8 @@ pub struct PLayers {
     pub name: String,
     pub materials: Vec<String>,
     pub thickness: Vec<f32>,
+    /// the MATERIAL list is written over several lines
+    pub multiline: bool,
 }
 #[derive(Serialize, Clone, Debug)]
 pub struct PGlass {
@@ -107,6 +109,8 @@ pub struct PSpace {
     pub stype: &'static str,
     pub conds: String,
     pub inside_tenv: bool,
+    /// what the SPACE block says under HEIGHT (the storey's SPACE-HEIGHT is what counts)
+    pub height_attr: f32,
     pub walls: Vec<PWall>,
 }
 #[derive(Serialize, Clone, Debug)]
@@ -182,7 +186,8 @@ pub fn gen_proj(rng: &mut Rng, o: &GenOpts) -> Proj {
     let materials: Vec<PMat> = (0..nmat)
         .map(|i| PMat {
             // one name in three has a double blank (the parser normalises blanks in material names)
-            name: if i == 0 && rng.chance(1, 3) { "Material  doble  blanco".to_string() } else { format!("Material {}", i + 1) },
+            // and names with parentheses are common in the catalogue ("Impermeabilizante(Betun fieltro)", "Camara aire horizontal(>15cm)")
+            name: if i == 0 && rng.chance(1, 3) { "Material  doble  blanco".to_string() } else if i == 1 && rng.chance(1, 2) { "Impermeabilizante(Betun fieltro)".to_string() } else if i == 2 && rng.chance(1, 2) { "Camara aire horizontal(>15cm)".to_string() } else { format!("Material {}", i + 1) },
             conductivity: r2(rng, 0.03, 2.5),
             density: r2(rng, 20.0, 2500.0),
             thickness: r2(rng, 0.01, 0.3),
@@ -201,13 +206,13 @@ pub fn gen_proj(rng: &mut Rng, o: &GenOpts) -> Proj {
         .map(|i| {
             let n = rng.range(1, 4);
             let ms: Vec<String> = (0..n).map(|_| rng.pick(&materials).name.clone()).collect();
-            PLayers { name: format!("Cerramiento {}", i + 1), thickness: ms.iter().map(|_| r2(rng, 0.01, 0.3)).collect(), materials: ms }
+            PLayers { name: format!("Cerramiento {}", i + 1), thickness: ms.iter().map(|_| r2(rng, 0.01, 0.3)).collect(), multiline: ms.len() > 1 && rng.chance(1, 2), materials: ms }
         })
         .collect();
     // names that differ only in case are different names in BDL
     let mut layers = layers;
     if rng.chance(1, 3) {
-        let twin = PLayers { name: layers[0].name.to_uppercase(), materials: layers[0].materials.clone(), thickness: layers[0].thickness.iter().map(|t| t + 0.01).collect() };
+        let twin = PLayers { name: layers[0].name.to_uppercase(), materials: layers[0].materials.clone(), thickness: layers[0].thickness.iter().map(|t| t + 0.01).collect(), multiline: false };
         layers.push(twin);
     }
     let glasses: Vec<PGlass> = (0..rng.range(1, 2)).map(|i| PGlass { name: format!("Vidrio {}", i + 1), u: r2(rng, 0.8, 5.7), shading_coef: r2(rng, 0.3, 0.95) }).collect();
@@ -341,6 +346,16 @@ pub fn gen_proj(rng: &mut Rng, o: &GenOpts) -> Proj {
                     windows: vec![],
                 });
             }
+            // the order of the elements of a space carries no meaning: one space in three lists its floor and ceiling first, and one in
+            // eight (never the only space of a storey: somebody's partition may name it) is an inner core with no wall on its outline
+            let mut walls = walls;
+            if rng.chance(1, 3) {
+                let k = walls.iter().position(|w| !matches!(w.loc, PLoc::Vertex(_))).unwrap_or(0);
+                walls.rotate_left(k);
+            }
+            if nsp > 1 && si + 1 == nsp && rng.chance(1, 4) {
+                walls.retain(|w| !matches!(w.loc, PLoc::Vertex(_)));
+            }
             spaces.push(PSpace {
                 name: sname.clone(),
                 polygon: format!("{}_Pol", sname),
@@ -353,11 +368,15 @@ pub fn gen_proj(rng: &mut Rng, o: &GenOpts) -> Proj {
                 stype: if rng.chance(4, 5) { "CONDITIONED" } else { "UNHABITED" },
                 conds: rng.pick(&conds).name.clone(),
                 inside_tenv: rng.chance(4, 5),
+                // one space in four carries a HEIGHT of its own that is not the storey height
+                height_attr: if rng.chance(1, 4) { *rng.pick(&[0.0f32, 2.2, 4.5]) } else { h },
                 walls,
             });
             x0 += w;
         }
-        floors.push(PFloor { name: fname, z, height: h, multiplier: 1.0, spaces });
+        // a storey may be switched off with a null multiplier (one in eight), or repeated
+        let mult = if rng.chance(1, 8) { 0.0 } else if rng.chance(1, 5) { 3.0 } else { 1.0 };
+        floors.push(PFloor { name: fname, z, height: h, multiplier: mult, spaces });
         z += h;
     }
     let mut shades = vec![];
@@ -428,7 +447,15 @@ pub fn print_proj(p: &Proj) -> String {
     for l in &p.layers {
         w(&format!("\"{}\" = LAYERS", l.name));
         w("    GROUP        = \"Fachadas\"");
-        w(&format!("    MATERIAL     = {}", names_list(&l.materials)));
+        if l.multiline {
+            w(&format!("    MATERIAL     = ( \"{}\",", l.materials[0]));
+            for mname in &l.materials[1..l.materials.len() - 1] {
+                w(&format!("                     \"{}\",", mname));
+            }
+            w(&format!("                     \"{}\")", l.materials[l.materials.len() - 1]));
+        } else {
+            w(&format!("    MATERIAL     = {}", names_list(&l.materials)));
+        }
         w(&format!("    THICKNESS = {}", nums_list(&l.thickness)));
         w("..");
     }
@@ -524,7 +551,7 @@ pub fn print_proj(p: &Proj) -> String {
         w("      ..");
         for sp in &f.spaces {
             w(&format!("    \"{}\" = SPACE", sp.name));
-            w(&format!("              HEIGHT        = {}", f.height));
+            w(&format!("              HEIGHT        = {}", sp.height_attr));
             w("            SHAPE             = POLYGON ");
             w(&format!("            POLYGON           = \"{}\"", sp.polygon));
             if sp.x != 0.0 {
